@@ -1005,7 +1005,10 @@ fn attribute_crash(profile: Profile, id: &str, tier: Tier, seed: u64, run: u64) 
 /// oracle and class of the same property still fail.
 fn minimise(sc: &DynScenario, profile: Profile, case: &Value, f: &Failure, force_child: bool) -> (Value, bool) {
     let t0 = Instant::now();
+    // a case whose environment moves the clock never runs in this process
+    let jumps = crate::core::split_env(case).0.map_or(false, |e| crate::env::jumps_clock(&e));
     let in_process = !force_child
+        && !jumps
         && profile == Profile::current()
         && f.oracle != "process-abort"
         && f.oracle != "wall-clock-watchdog"
